@@ -87,6 +87,11 @@ func (c dbxCfg) options() *Options {
 	if c.XOR2 {
 		o.FloatChunkEncoding = chunkenc.EncXOR2
 	}
+	for _, e := range c.Extra {
+		if e == "ret" {
+			o.RetentionDuration = 250
+		}
+	}
 	return o
 }
 
